@@ -245,6 +245,28 @@ func TestC17(t *testing.T) {
 			}
 		})
 	}
+	// words the tokenizer's own source compares the input with (source dictionary) inside every construct
+	dw := dictWords(srcDict().HTML)
+	for k, hc := range h5Constructs {
+		k := k
+		alpha := append([]string{}, hc.alpha...)
+		for _, x := range []string{"\"", "'", " "} {
+			dup := false
+			for _, y := range alpha {
+				dup = dup || x == y
+			}
+			if !dup {
+				alpha = append(alpha, x)
+			}
+		}
+		p = c.rec.NewPart("term_source_dictionary_"+hc.name, fmt.Sprintf("every body of 1..4 symbols over {W} + %q and of 5 symbols over {W} + the first three decoys + the quotes, that contains W, for each of the %d words W (as written, upper, lower) that occur as literals in the tokenizer's source files and are not list entries", alpha, len(dw)), false, true, "")
+		judge := func(w *Worker, s string) {
+			w.Judge(ev.Case{Kind: "term", N: k, In: s})
+			w.Judge(ev.Case{Kind: "inv", In: hc.opener + s})
+		}
+		c.dictSeq(p, dw, alpha, 1, 4, judge)
+		c.dictSeq(p, dw, append(append([]string{}, hc.alpha[:3]...), "\"", "'"), 5, pick(5, 6), judge)
+	}
 	hb := htmlBoundaryInputs()
 	p = c.rec.NewPart("inv_boundary_inputs", "invariants on the length-, count- and code-point boundary inputs (see C07), incl. inputs beyond 4 MB", false, true, "")
 	c.ParRange(p, int64(len(hb)), func(w *Worker, i int64) { w.Judge(ev.Case{Kind: "inv", In: hb[i]}) })
